@@ -771,6 +771,21 @@ func TestC20Hazard(t *testing.T) {
 						idx += int64(n)
 						close(start)
 						wg.Wait()
+						// ... and the very FIRST reports for a channel id the manager has not handled in this
+						// lifetime (a channel restored from the datastore, an id it does not know) arriving
+						// from several goroutines at once: every one of them returns as well
+						fresh := datatransfer.ChannelID{Initiator: other, Responder: self, ID: datatransfer.TransferID(100000 + chunk*1000 + round)}
+						start2 := make(chan struct{})
+						for g := 0; g < n; g++ {
+							wg.Add(1)
+							go func() {
+								defer wg.Done()
+								<-start2
+								f.tp.Events().OnDataQueued(fresh, dummyLink, 10, 1, true)
+							}()
+						}
+						close(start2)
+						wg.Wait()
 					}
 				}) {
 					break
@@ -778,6 +793,7 @@ func TestC20Hazard(t *testing.T) {
 			}
 			c.HangCheck("C20", "manager-stop", 20*time.Second, func() { f.m.Stop(bg) })
 			c.Count("hazard.simultaneous-reports-same-channel", 2000)
+			c.Count("hazard.simultaneous-first-reports-new-channel", 2000)
 		case 7:
 			// (vii) Stop arrives while a per-transfer subscriber is still handling the channel's terminal event
 			f := newMgrFixPlain(c, self, nil)
